@@ -68,6 +68,9 @@ mod dynamic_binding;
 mod echo_operation;
 mod edict_target_ir;
 mod engine_impl;
+/// Verification hooks for external property-based testing (feature `echo_verif`).
+#[cfg(feature = "echo_verif")]
+pub mod echo_verif;
 pub mod evidence;
 pub mod external_action;
 #[cfg(not(target_arch = "wasm32"))]
